@@ -2,3 +2,5 @@ import Driver.Core
 import Driver.Order
 import Driver.Keys
 import Driver.Sign
+import Driver.Fetch
+import Driver.Codec
